@@ -1036,7 +1036,11 @@ class Interp:
         f = node.func
         args = []
         kwargs = {}
-        if isinstance(f, ast.Attribute):
+        if (isinstance(f, ast.Attribute) and isinstance(f.value, ast.Call) and isinstance(f.value.func, ast.Name)
+                and f.value.func.id == "super" and not f.value.args and not f.value.keywords):
+            # super().m(...): the next definition of m after the current class in the receiver's MRO (repository classes)
+            callee = ("super", None, f.attr)
+        elif isinstance(f, ast.Attribute):
             recv = self.eval(st, f.value)
             recv = eng.unbox(st, recv)
             callee = ("method", recv, f.attr)
@@ -1062,6 +1066,20 @@ class Interp:
                     kwargs[k] = x
             else:
                 kwargs[kw.arg] = v
+        if callee[0] == "super":
+            self_v = st.env.get("self")
+            if not isinstance(self_v, VRef) or not self.fi.cls:
+                raise Unsupported(f"{self.site(node)}: super() outside a method")
+            here = eng.canon(f"{self.fi.module}.{self.fi.cls}")
+            mro = eng.reg._mro(eng, here)
+            for k in mro[1:]:
+                ci = eng.repo.cls(eng.tree_name(k))
+                if ci is None:
+                    continue
+                fi2 = eng.repo.modules[ci.module].funcs.get(f"{ci.name}.{eng.tree_name(callee[2]) if False else callee[2]}")
+                if fi2 is not None:
+                    return self.call_repo(st, eng.canon(fi2.key), self_v, args, kwargs, node)
+            raise Unsupported(f"{self.site(node)}: super().{callee[2]} not found in the repository bases of {here}")
         if callee[0] == "method":
             return self.call_method(st, callee[1], callee[2], args, kwargs, node)
         return self.call_value(st, callee[1], args, kwargs, node)
